@@ -1,3 +1,5 @@
+//go:build verif
+
 package main
 
 // In-process harness, compiled INTO gocc's own main package through go build -overlay
@@ -17,9 +19,10 @@ import (
 type verifExit int
 
 type job struct {
-	ID   int      `json:"id"`
-	Dir  string   `json:"dir"`
-	Args []string `json:"args"`
+	ID   int               `json:"id"`
+	Dir  string            `json:"dir"`
+	Args []string          `json:"args"`
+	Env  map[string]string `json:"env"`
 }
 
 type jobResult struct {
@@ -86,6 +89,17 @@ func runJob(j job) (res jobResult) {
 	oldOut, oldErr, oldArgs := os.Stdout, os.Stderr, os.Args
 	os.Stdout, os.Stderr = so, se
 	os.Args = append([]string{"gocc"}, j.Args...)
+	for k, v := range j.Env {
+		old, had := os.LookupEnv(k)
+		os.Setenv(k, v)
+		defer func(k, old string, had bool) {
+			if had {
+				os.Setenv(k, old)
+			} else {
+				os.Unsetenv(k)
+			}
+		}(k, old, had)
+	}
 	flag.CommandLine = flag.NewFlagSet(os.Args[0], flag.ContinueOnError)
 	flag.CommandLine.SetOutput(se)
 	defer func() {
